@@ -140,9 +140,18 @@ struct World {
     declined: [bool; NHASH],
 }
 
+/// `init … m<k>`: the world runs with `policy.max_invoices = k`
+fn max_invoices_of(t: &[&str]) -> Option<usize> {
+    t.last().and_then(|x| x.strip_prefix('m')).and_then(|x| x.parse().ok())
+}
+thread_local! { static MAX_INVOICES: std::cell::Cell<Option<usize>> = std::cell::Cell::new(None); }
+
 fn services(persister: Arc<dyn Persist>, clock: Arc<ManualClock>, vspec: VelocityControlSpec) -> NodeServices {
     let mut policy = make_default_simple_policy(Network::Testnet);
     policy.global_velocity_control = vspec;
+    if let Some(m) = MAX_INVOICES.with(|c| c.get()) {
+        policy.max_invoices = m;
+    }
     NodeServices {
         validator_factory: Arc::new(SimpleValidatorFactory::new_with_policy(policy)),
         starting_time_factory: make_genesis_starting_time_factory(Network::Testnet),
@@ -432,7 +441,14 @@ impl C06Node {
         if rng.chance(1, 14) {
             v = *rng.pick(&[1u64, 100, 330, 400, 496, 497, 498, 506, 507, 508]);
         }
-        let cltv = if outgoing { *rng.pick(&[500u32, 500, 500, 515, 610]) } else { *rng.pick(&[600u32, 600, 600, 520]) };
+        // cltv values: the standard pair 500 / 600, inverted and too-close pairs, and the cltv_delta of the policy in use
+        // exactly, one less and one more above the standard outgoing value
+        let cd = make_default_simple_policy(Network::Testnet).cltv_delta;
+        let cltv = if outgoing {
+            *rng.pick(&[500u32, 500, 500, 515, 610])
+        } else {
+            *rng.pick(&[600u32, 600, 600, 600, 600, 520, 500 + cd, 500 + cd - 1, 500 + cd + 1])
+        };
         (h, v, cltv)
     }
     /// mutate a view given as (outgoing, incoming) lists
@@ -519,9 +535,10 @@ impl Group for C06Node {
                 // the policy numbers are read from the crate the harness is linked against
                 let p = make_default_simple_policy(Network::Testnet);
                 let (vl, vt) = match rest {
-                    [l, ty] if *ty == "h" || *ty == "d" => (l.to_string(), ty.to_string()),
+                    [l, ty, ..] if *ty == "h" || *ty == "d" => (l.to_string(), ty.to_string()),
                     _ => ("0".to_string(), "u".to_string()),
                 };
+                let mi = max_invoices_of(&t).unwrap_or(p.max_invoices);
                 // the commitment feerate of the harness and the HTLC-transaction weights of the linked LDK for the
                 // channel type in use: the model computes the trim thresholds from them and the MIN_DUST_LIMIT_SATOSHIS
                 // constant the translator reads from the source
@@ -529,12 +546,10 @@ impl Group for C06Node {
                 let wt = lightning_signer::lightning::ln::chan_utils::htlc_timeout_tx_weight(&features);
                 let ws = lightning_signer::lightning::ln::chan_utils::htlc_success_tx_weight(&features);
                 Some(format!(
-                    "init {} {} {} {} {} {} {} {} {}",
-                    nch, p.max_routing_fee_msat, p.max_feerate_percentage, p.cltv_delta, vl, vt, FEERATE, wt, ws
+                    "init {} {} {} {} {} {} {} {} {} {}",
+                    nch, p.max_routing_fee_msat, p.max_feerate_percentage, p.cltv_delta, vl, vt, FEERATE, wt, ws, mi
                 ))
             }
-            ["keysend", a, b, c, "direct"] => Some(format!("keysend {} {} {}", a, b, c)),
-            ["invoice", a, b, c, d, e, "direct"] => Some(format!("invoice {} {} {} {} {}", a, b, c, d, e)),
             ["cpsign", a, b, c, d, "p1"] => Some(format!("cpsign {} {} {} {}", a, b, c, d)),
             ["hval", a, b, c, d, "p1"] => Some(format!("hval {} {} {} {}", a, b, c, d)),
             _ => Some(op.to_string()),
@@ -596,6 +611,12 @@ impl Group for C06Node {
             // small parts around the trim thresholds (offered: 497 sat, received: 507 sat at the harness feerate): listed
             // below the threshold = refused on every entry point, whatever the hash; at the threshold they count in full
             split(&format!("init 2|keysend 0 1000 {t}|cpsign 0 new - 0:400:500 p1|cpsign 0 new - 0:506:500|cpsign 0 new - 2:100:500 p1|cpsign 0 new 0:496:600 - p1|cpsign 0 new 0:497:600 -|hval 1 new 0:496:500 - p1|hval 1 new - 0:506:600|hval 1 new 0:1:500 -|hval 1 new 0:497:500 -|hval 1 new - 0:507:600 p1|cpsign 1 new - 0:507:500 p1|keysend 1 2000000 {t}|cpsign 1 new - 1:507:500,1:507:500,1:507:500,1:507:500 p1|cprevoke 1|cpsign 1 new - 1:507:500,1:507:500,1:507:500,1:507:500,1:400:500 p1|cpsign 1 new - 1:507:500,1:507:500,1:507:500,1:507:500,1:507:500")),
+            // allowlisted payee: its invoice is added although the approver says no (and then bounds the payment like any
+            // approval); a keysend to it still needs the approver; the allowlist survives a restart
+            split(&format!("init 2|invoice 0 50000000 {t} 3600 0 neg|cpsign 0 new - 0:50000:500|allowpayee|keysend 1 50000000 {t} neg|cpsign 0 new - 1:50000:500|invoice 0 50000000 {t} 3600 0 neg|cpsign 0 new - 0:50000:500|cpsign 1 new - 0:600:500|restart|invoice 2 2000000 {t} 3600 1 neg|cpsign 1 new - 2:2200:500|cprevoke 1|cpsign 1 new - 2:2221:500")),
+            // room for two invoices: the third hash is refused (nothing registered, its HTLC refused), through the approver a
+            // repeat of an existing one is still answered, directly even the repeat is refused; after the prune there is room
+            split(&format!("init 2 m2|keysend 0 50000000 {t}|invoice 1 50000000 {t} 3600 0|keysend 2 50000000 {t}|cpsign 0 new - 2:50000:500|keysend 0 50000000 {t}|keysend 0 50000000 {t} direct|invoice 1 50000000 {t} 3600 0 direct|invoice 1 50000000 {t} 3600 1|keysend 2 1000 {t} neg|heartbeat {}|keysend 2 50000000 {}|cpsign 0 new - 2:50000:500|restart|keysend 1 1000 {} direct", t + 61, t + 61, t + 62)),
             // u64 extreme approval: a + max_routing_fee overflows
             split(&format!("init 2|keysend 0 18446744073709551615 {t}|cpsign 0 new - 0:2000:500|cpsign 1 new - -")),
         ]
@@ -610,6 +631,11 @@ impl Group for C06Node {
         if let Some(l) = vlimit {
             ops[0] = format!("init {} {} h", nch, l);
         }
+        // one world in five has room for one or two approved invoices only (policy.max_invoices): further approvals are
+        // refused with an error — directly even the repeat of an existing one — until the heartbeat prunes
+        if rng.chance(1, 5) {
+            ops[0] = format!("{} m{}", ops[0], rng.range(1, 2));
+        }
         let approval = |rng: &mut Rng, h: u64, amt: u64, now: u64| -> String {
             let line = if rng.chance(1, 2) && amt <= 1_000_000_000_000 {
                 format!("invoice {} {} {} 3600 {}", h, amt, now, rng.below(2))
@@ -623,6 +649,10 @@ impl Group for C06Node {
                 _ => line,
             }
         };
+        // one world in six: the payee is on the allowlist (its invoices need no approver, its keysends still do)
+        if rng.chance(1, 6) {
+            ops.push("allowpayee".into());
+        }
         let mut sims: Vec<Sim> = vec![Sim::default(); nch];
         // cases with u64-extreme approvals (overflow panics) use plain cltv values only, see random_htlc
         let extreme = rng.chance(1, 6);
@@ -632,6 +662,22 @@ impl Group for C06Node {
             let amt = *rng.pick(&[100_000_000u64, 100_000_000, 50_000_000, 2_000_000]);
             let h = rng.below(NHASH as u64);
             ops.push(approval(rng, h, amt, now));
+        }
+        // with a small invoice table: more approvals than fit, and repeats of earlier ones both through the approver (an
+        // existing entry still answers) and directly (the table-full refusal comes first)
+        if ops[0].contains(" m") {
+            for _ in 0..rng.range(1, 3) {
+                let h = rng.below(NHASH as u64);
+                ops.push(approval(rng, h, 50_000_000, now));
+            }
+            let earlier: Vec<String> =
+                ops.iter().filter(|o| o.starts_with("keysend") || o.starts_with("invoice")).cloned().collect();
+            for o in earlier {
+                if rng.chance(1, 2) {
+                    let base = o.trim_end_matches(" neg").trim_end_matches(" direct").to_string();
+                    ops.push(if rng.chance(2, 3) { format!("{} direct", base) } else { base });
+                }
+            }
         }
         if rng.chance(1, 7) {
             // an approval recorded as ZERO (an amountless BOLT-11 invoice or a keysend of 0 msat) backs nothing beyond the
@@ -909,6 +955,7 @@ impl Group for C06Node {
             let t: Vec<&str> = op.split_whitespace().collect();
             if t.first() == Some(&"init") {
                 let nch: usize = t.get(1).and_then(|x| x.parse().ok()).unwrap_or(2).clamp(1, 4);
+                MAX_INVOICES.with(|c| c.set(max_invoices_of(&t)));
                 let w = World::new(nch, vspec_of(&t));
                 co.out.push(format!("ok {}", w.digest()));
                 world = Some(w);
@@ -1045,6 +1092,16 @@ fn exec_op(w: &mut World, t: &[&str], at: usize, co: &mut CaseOut) -> Option<(St
             }
             w.note_answer(h, r.ok(), amt, now + expiry + INVOICE_PRUNE_TIME, co);
             Some((cls, false))
+        }
+        ["allowpayee"] => {
+            // the payee of every invoice of the harness (the key the invoices are signed with) and of every keysend goes
+            // on the node's allowlist: `handle_proposed_invoice` then adds its invoices without asking the approver,
+            // `handle_proposed_keysend` still asks
+            let key = SecretKey::from_slice(&[42; 32]).unwrap();
+            let pk = PublicKey::from_secret_key(&Secp256k1::new(), &key);
+            let ks = make_test_pubkey(1);
+            w.ctx.node.add_allowlist(&[format!("payee:{}", pk), format!("payee:{}", ks)]).ok()?;
+            Some(("ok".into(), false))
         }
         ["cpsign", c, kind, off, rcv, ph @ ..] => {
             let phase1 = match ph {
